@@ -179,6 +179,7 @@ func cmdRun(args []string) {
 		startWatchdog(*stall)
 	}
 	verifsim.Hook = simrt.Hook
+	verifsim.BlockedHook = simrt.Blocked
 	sum := core.Summary{Summary: true, SitesTotal: len(verifsim.Sites)}
 	var hw *bufio.Writer
 	if *hashOut != "" {
@@ -204,6 +205,20 @@ func cmdRun(args []string) {
 		sum.Switches += rec.Switches
 		sum.Faults = core.AddCounts(sum.Faults, rec.Faults)
 		sum.Probes = core.AddCounts(sum.Probes, rec.Probes)
+		for h, m := range rec.Counts {
+			if sum.Counts == nil {
+				sum.Counts = map[string]map[string]int{}
+			}
+			sum.Counts[h] = core.AddCounts(sum.Counts[h], m)
+		}
+		if hw != nil {
+			for _, xh := range rec.ExtraHashes {
+				var buf [9]byte
+				binary.LittleEndian.PutUint64(buf[:8], xh)
+				buf[8] = 2
+				hw.Write(buf[:])
+			}
+		}
 		if hw != nil {
 			var buf [9]byte
 			h := core.Hash64([]byte(rec.Mode + "|" + rec.CaseHash))
@@ -262,6 +277,7 @@ func cmdPlan(args []string) {
 	}
 	p := getProp(plan.Property)
 	verifsim.Hook = simrt.Hook
+	verifsim.BlockedHook = simrt.Blocked
 	fmt.Fprintf(out, "B 0\n")
 	out.Flush()
 	rec := &core.Record{Seed: plan.Seed, Mode: plan.Mode}
@@ -335,6 +351,7 @@ func cmdEnum(args []string) {
 		return
 	}
 	verifsim.Hook = simrt.Hook
+	verifsim.BlockedHook = simrt.Blocked
 	sum := core.Summary{Summary: true, SitesTotal: len(verifsim.Sites)}
 	var hw *bufio.Writer
 	if *hashOut != "" {
